@@ -67,6 +67,15 @@ def header_variants(tier):
           # counts are ULEB128: 128+ entries need a second byte (a one-byte read glues the continuation byte onto the first path)
           ('v5/dirs=130', dict(v5_dirs=[{'path': b'/d%03d' % i} for i in range(130)], v5_files=[{'path': b'a.c', 'directory_index': 129}, {'path': b'b.c', 'directory_index': 0}])),
           ('v5/files=300', dict(v5_dirs=[{'path': b'/d0'}, {'path': b'd1'}], v5_files=[{'path': b'f%d.c' % i, 'directory_index': i % 2} for i in range(300)])),
+          # the same FORM sequence carrying different content types: in one header vs the next (a parser memoised per form tuple mixes the fields up)
+          ('v5/size-before-dir', dict(file_format=(('path', 'string'), ('size', 'udata'), ('directory_index', 'udata')),
+                                      v5_dirs=[{'path': b'/d0'}, {'path': b'd1'}], v5_files=[{'path': b'a.c', 'size': 300, 'directory_index': 1}, {'path': b'b.c', 'size': 0, 'directory_index': 0}])),
+          ('v5/second-program-permuted', dict(file_format=(('path', 'string'), ('directory_index', 'udata'), ('timestamp', 'udata'), ('size', 'udata')),
+                                              v5_files=[{'path': b'a.c', 'directory_index': 0, 'timestamp': 77, 'size': 300}],
+                                              second=dict(file_format=(('path', 'string'), ('directory_index', 'udata'), ('size', 'udata'), ('timestamp', 'udata')),
+                                                          v5_files=[{'path': b'b.c', 'directory_index': 0, 'size': 300, 'timestamp': 77}]))),
+          ('v5/second-program-dir-format', dict(dir_format=(('path', 'string'), ('timestamp', 'udata')), v5_dirs=[{'path': b'/d0', 'timestamp': 9}],
+                                                second=dict(dir_format=(('path', 'string'), ('size', 'udata')), v5_dirs=[{'path': b'/d0', 'size': 9}]))),
           ('v5/formats=3+4', dict(dir_format=(('path', 'string'), ('timestamp', 'udata'), ('size', 'udata')),
                                   v5_dirs=[{'path': b'/d0', 'timestamp': 200, 'size': 0x4000}],
                                   file_format=(('path', 'string'), ('directory_index', 'udata'), ('timestamp', 'udata'), ('size', 'udata')),
@@ -126,15 +135,17 @@ PROG_B = ['set_address_1000', 'special_adv1', 'advance_pc_1', 'copy']
 def build_case(hv, seq, pi, swap):
     le, fmt, addr = PARAMS[pi]
     hd = dict(hv)
+    second = hd.pop('second', None)     # header overrides for the second program of the same section
     version = hd.get('version', 4)
     dp = DP(le, fmt, addr, version)
     h = LP.Header(**hd)
+    hB = LP.Header(**dict(hd, **second)) if second else h
     LT = dict(letters(h, dp))
     progA = b''.join(LT[x] for x in seq) + LT['end_sequence']
     progB = b''.join(LT.get(x, b'\x01') for x in PROG_B) + LT['end_sequence']
     st = StrTabs()
     unitA, expA = LP.encode(h, progA, dp, st)
-    unitB, expB = LP.encode(h, progB, dp, st)
+    unitB, expB = LP.encode(hB, progB, dp, st)
     line = unitA + unitB + b'\xff' * 8
     offA, offB = 0, len(unitA)
     form = F['sec_offset'] if version >= 4 else (F['data4'] if fmt == 32 else F['data8'])
@@ -148,12 +159,12 @@ def build_case(hv, seq, pi, swap):
     secs['.debug_line'] = line
     secs['.debug_str'] = bytes(st.str)
     secs['.debug_line_str'] = bytes(st.line_str)
-    progs = [(progB, expB), (progA, expA)] if swap else [(progA, expA), (progB, expB)]
+    progs = [(progB, expB, hB), (progA, expA, h)] if swap else [(progA, expA, h), (progB, expB, hB)]
     return secs, dp, h, progs
 
 
 def check_case(hv, seq, pi, swap):
-    secs, dp, h, progs = build_case(hv, seq, pi, swap)
+    secs, dp, _h, progs = build_case(hv, seq, pi, swap)
     data = secs['.debug_line'] + secs['.debug_info']
     fails = []
     dw = guarded(dg.make_dwarfinfo, secs, dp.le, dp.addr)
@@ -164,7 +175,7 @@ def check_case(hv, seq, pi, swap):
         return [('iter_CUs()', 3, cus)], data, repr(cus), 0
     outs = []
     nrows = 0
-    for ci, (prog, exp) in enumerate(progs):
+    for ci, (prog, exp, h) in enumerate(progs):
         lp = guarded(dw.line_program_for_CU, cus[ci])
         p = 'cu%d.lineprogram' % ci
         if isinstance(lp, Raised) or lp is None:
@@ -243,7 +254,7 @@ def _cases(tier):
     maxlen_other = 2 if tier == 'quick' else 3
     idx = 0
     for vi, (vname, hv) in enumerate(V):
-        h = LP.Header(**hv)
+        h = LP.Header(**{k: v for k, v in hv.items() if k != 'second'})
         names = [n for n, _ in letters(h, DP(True, 32, 8, h.version))]
         ml = maxlen_default if vname == 'default' else (maxlen_other if '+' not in vname else 2)
         params = range(8) if (vname == 'default' or tier == 'thorough' and '+' not in vname) else (0, 7, 2, 5)
